@@ -21,6 +21,7 @@ Definition pins : list string := ["usim/_primitives/timing.py:interval";
   "usim/_primitives/timing.py:After.__bool__";
   "usim/_primitives/timing.py:After.__init__";
   "usim/_primitives/timing.py:After.__invert__";
+  "usim/_primitives/timing.py:After.__str__";
   "usim/_primitives/timing.py:After.__subscribe__";
   "usim/_primitives/timing.py:After._async_trigger";
   "usim/_primitives/timing.py:After._ensure_trigger";
@@ -29,21 +30,26 @@ Definition pins : list string := ["usim/_primitives/timing.py:interval";
   "usim/_primitives/timing.py:Before.__bool__";
   "usim/_primitives/timing.py:Before.__init__";
   "usim/_primitives/timing.py:Before.__invert__";
+  "usim/_primitives/timing.py:Before.__str__";
   "usim/_primitives/timing.py:Delay.<attrs>";
   "usim/_primitives/timing.py:Delay.__init__";
+  "usim/_primitives/timing.py:Delay.__str__";
   "usim/_primitives/timing.py:Delay.__subscribe__";
   "usim/_primitives/timing.py:Eternity.<attrs>";
   "usim/_primitives/timing.py:Eternity.__await__";
   "usim/_primitives/timing.py:Eternity.__bool__";
   "usim/_primitives/timing.py:Eternity.__invert__";
+  "usim/_primitives/timing.py:Eternity.__str__";
   "usim/_primitives/timing.py:Instant.<attrs>";
   "usim/_primitives/timing.py:Instant.__await__";
   "usim/_primitives/timing.py:Instant.__bool__";
   "usim/_primitives/timing.py:Instant.__invert__";
+  "usim/_primitives/timing.py:Instant.__str__";
   "usim/_primitives/timing.py:Moment.<attrs>";
   "usim/_primitives/timing.py:Moment.__await__";
   "usim/_primitives/timing.py:Moment.__bool__";
   "usim/_primitives/timing.py:Moment.__init__";
+  "usim/_primitives/timing.py:Moment.__str__";
   "usim/_primitives/timing.py:Moment.__subscribe__";
   "usim/_primitives/timing.py:Moment.__unsubscribe__";
   "usim/_primitives/timing.py:Time.<attrs>";
